@@ -283,10 +283,14 @@ def gen_bulk_rekey(rng):
     caller-written data directly, so the queues are out of order on entry to updateAll()."""
     dim = rng.choice([2, 2, 3, 4])
     interior = rng.chance(1, 2)
+    free = dim - 1 if interior else dim
+    R = 1
+    while (2 * R + 1) ** free < 120:      # room for 40 distinct cells, densely enough packed to have neighbours
+        R += 1
     if interior:
         # dimension 0 is degenerate (low = up = 0) and every cell has coord[0] = 0: count >= 1 = limit
-        lo = [0] + [-3] * (dim - 1)
-        up = [0] + [3] * (dim - 1)
+        lo = [0] + [-R] * (dim - 1)
+        up = [0] + [R] * (dim - 1)
         g = Gen(rng, dim=dim, limit=1, bounds=(lo, up), ev=rng.choice(["none", "none", "none", "lo"]))
     else:
         g = Gen(rng, dim=dim, limit=2 * dim + 1, bounds=None, ev=rng.choice(["none", "none", "none", "hi"]))
@@ -296,7 +300,7 @@ def gen_bulk_rekey(rng):
         n = rng.range(9, 40) if not rng.chance(1, 4) else rng.range(9, 16)
         cells = set()
         while len(cells) < n:
-            x = [0 if (interior and i == 0) else rng.range(-3, 3) for i in range(dim)]
+            x = [0 if (interior and i == 0) else rng.range(-R, R) for i in range(dim)]
             cells.add(tuple(x))
         cells = list(cells)
         style = rng.below(4)
@@ -305,6 +309,8 @@ def gen_bulk_rekey(rng):
             vals[x] = (k * 37 % 4096) if style == 0 else rng.below(4096)
             g.new(x, vals[x])
         for rekeys in range(rng.range(1, 2)):
+            if len(cells) < 2:
+                break
             # new priorities: reversal / fresh random / few distinct values (ties) / random subset only
             sub = list(cells)
             if style == 3:
@@ -335,6 +341,7 @@ def gen_bulk_rekey(rng):
                     g.lines.append("rm " + g.cs(x))
                     g.lines.append(top)
             cells = left
+            style = rng.below(4) if style != 0 else 1
         g.lines.append("clear")
         g.present = []
     g.lines += ["topi", "tope"]
@@ -664,41 +671,78 @@ def judge(ck, hbin, script, tag, pre=None, nseq=1):
         fail = (len(impl), "harness exited with code %s: %s" % (rc, crash_site(err)))
     d = ck.first_diff(impl, model)
     if fail is None and d is not None:
-        # targeted search: model and code disagree at line d although the oracle is satisfied (e.g. a heap
-        # laid out differently).  Drain from the disagreeing state (repeated removal of the reported top and of
-        # random cells), looking for a continuation on which the property itself fails (a top that is not a best cell).
+        # targeted search: model and code disagree at line d although the oracle is satisfied (typically a heap
+        # laid out differently).  Aim: the first state at or after d whose queue *array* is not heap-ordered under the
+        # functor (a child better than its parent -- not a property failure by itself).  From that state, keep the
+        # offending pair, remove random subsets of the other cells and drain by repeated removal of the reported
+        # top; the oracle checks after every removal that both tops are best cells of their class.  Without such a
+        # state: plain drains (best-first, random order, mixed) from the disagreeing state.
+        ltE, ltI = lt_of(hdr.cmpe), lt_of(hdr.cmpi)
+        aim = None
+        for q in range(d, min(len(impl), len(script) - 1)):
+            try:
+                D = parse_dump(impl[q].partition(" | ")[2], hdr.dim)
+            except Exception:   # noqa
+                continue
+            for qn, arr, lt in (("e", D["E"], ltE), ("i", D["I"], ltI)):
+                for j in range(1, len(arr)):
+                    if arr[j] in D["cells"] and arr[(j - 1) // 2] in D["cells"] and \
+                            lt(D["cells"][arr[j]][3], D["cells"][arr[(j - 1) // 2]][3]):
+                        aim = (q, qn, arr, {arr[j], arr[(j - 1) // 2]}, D)
+                        break
+                if aim:
+                    break
+            if aim:
+                break
+        budget = ck.__dict__.setdefault("_c13_search_budget", {"aimed": 10 if ck.tier == "quick" else 60,
+                                                                "plain": 4 if ck.tier == "quick" else 30})
+        kind = "aimed" if aim else "plain"
         r = ck.rng.fork("search%d" % ck.traces_validated)
-        pres = []
-        try:
-            pres = [c[0] for c in parse_dump(impl[d].partition(" | ")[2], hdr.dim)["cells"].values()]
-        except Exception:   # noqa
-            pass
-        for attempt in range(48):
-            # drain from the disagreeing state: remove the reported top (best-first), random cells, or a mix;
-            # every line's dump lets the oracle check that both tops are best cells of their class
-            cont = []
-            cs = list(pres)
-            r.shuffle(cs)
-            mode = attempt % 4       # 0 best-first external/internal alternating, 1 random order, 2 mixed, 3 mixed + updates
-            for k in range(len(cs) + 2):
-                z = r.below(100)
-                if mode == 0 or (mode >= 2 and z < 50):
-                    cont.append(r.choice(["rmtope", "rmtopi"]) if mode else ("rmtope" if attempt % 8 < 4 else "rmtopi"))
-                elif cs:
-                    xs = " ".join(map(str, cs.pop()))
-                    if mode == 3 and z >= 90:
-                        cont.append("upd %s %d" % (xs, r.below(4096)))
-                    else:
-                        cont += ["rm " + xs, r.choice(["topi", "tope"])]
-            cont += ["topi", "tope"]
-            s2 = script[:d + 2] + cont
+        conts = []
+        if budget[kind] <= 0:
+            ck.count("search:skipped-budget-exhausted")
+        elif aim:
+            budget[kind] -= 1
+            ck.count("search:aimed-at-a-disordered-queue-array")
+            q, qn, arr, keep, D = aim
+            others = [c for c in arr if c not in keep]
+            for attempt in range(48):
+                sub = [c for c in others if r.chance(attempt % 4, 4)] if attempt else []
+                r.shuffle(sub)
+                cont = ["rm " + " ".join(map(str, D["cells"][c][0])) for c in sub]
+                cont += ["rmtop" + qn] * (len(arr) - len(sub) + 1) + ["topi", "tope"]
+                conts.append(script[:q + 2] + cont)
+        else:
+            budget[kind] -= 1
+            pres = []
+            try:
+                pres = [c[0] for c in parse_dump(impl[d].partition(" | ")[2], hdr.dim)["cells"].values()]
+            except Exception:   # noqa
+                pass
+            for attempt in range(16):
+                cont = []
+                cs = list(pres)
+                r.shuffle(cs)
+                mode = attempt % 4       # 0 best-first, 1 random order, 2 mixed, 3 mixed + updates
+                for k in range(len(cs) + 2):
+                    z = r.below(100)
+                    if mode == 0 or (mode >= 2 and z < 50):
+                        cont.append(r.choice(["rmtope", "rmtopi"]) if mode else ("rmtope" if attempt % 8 < 4 else "rmtopi"))
+                    elif cs:
+                        xs = " ".join(map(str, cs.pop()))
+                        if mode == 3 and z >= 90:
+                            cont.append("upd %s %d" % (xs, r.below(4096)))
+                        else:
+                            cont += ["rm " + xs, r.choice(["topi", "tope"])]
+                conts.append(script[:d + 2] + cont + ["topi", "tope"])
+        for s2 in conts:
             impl2, rc2, err2, model2 = run_script(ck, hbin, s2)
             ck.count("search:continuations-tried")
             f2 = oracle(s2, impl2)
             if f2 is not None or rc2 != 0:
                 script, impl, rc, err, model = s2, impl2, rc2, err2, model2
                 fail = f2 or (len(impl2), "harness exited with code %s: %s" % (rc2, crash_site(err2)))
-                ck.count("search:continuation-found-failure")
+                ck.count("search:continuation-found-failure(%s)" % kind)
                 break
     if fail is not None:
         # one replay per kind of failure: a second script failing in the same way (same message up to numbers,
@@ -726,6 +770,13 @@ def judge(ck, hbin, script, tag, pre=None, nseq=1):
         return False
     if d is not None:
         ck.disagreements += 1
+        # one broken-correspondence report per differing operation kind; the others are counted
+        dop = script[d + 1].split()[0] if d + 1 < len(script) else "?"
+        seen = ck.__dict__.setdefault("_c13_dis", set())
+        if dop in seen:
+            ck.count("disagreeing-scripts:same-op-as-reported")
+            return None
+        seen.add(dop)
 
         def still(lines):
             s = [script[0]] + lines
@@ -788,6 +839,8 @@ def run(ck):
     quick = ck.tier == "quick"
     jobs = [(name, script, "corpus", 1) for name, script in corpus()]
     nrand, nflip, ndense, nbulk = (220, 90, 60, 160) if quick else (2500, 900, 500, 2500)
+    for i in range(nbulk):
+        jobs.append(("bulk%d" % i, gen_bulk_rekey(ck.rng.fork("bulk%d" % i)), "bulk-rekey", 1))
     for i in range(nrand):
         r = ck.rng.fork("rand%d" % i)
         jobs.append(("rand%d" % i, gen_random(r, r.choice([12, 40, 120, 300])), "random", 1))
@@ -795,8 +848,6 @@ def run(ck):
         jobs.append(("flip%d" % i, gen_flip(ck.rng.fork("flip%d" % i)), "flip", 1))
     for i in range(ndense):
         jobs.append(("dense%d" % i, gen_dense(ck.rng.fork("dense%d" % i)), "dense", 1))
-    for i in range(nbulk):
-        jobs.append(("bulk%d" % i, gen_bulk_rekey(ck.rng.fork("bulk%d" % i)), "bulk-rekey", 1))
     nexh = 0
     for L in ((1, 2) if quick else (1, 2, 3, 4)):
         for batch, k in gen_exhaustive_batches(L, EXH_CFGS if (quick or L < 4) else EXH_CFGS[:2]):
